@@ -12,8 +12,8 @@
    cls._additional_properties                    absent, or the flag of the first class statement along the
                                                  MRO that sets it ([declared_additional])
    get_type_info(field, locals, additional)      the oracle [ext]; [ext_ok]: on every non-constant field it
-                                                 returns a str whose two facts (startswith "Optional[",
-                                                 endswith "= None") are those of the field's token f_tok
+                                                 returns a str whose token ([tok_of]: startswith "Optional[",
+                                                 endswith "= None") is the field's f_tok
    dict name -> text                             [sdict l], l : list (name * text)
    a rendered def                                [def_render head fixed kws kw], read back by [abs_def] *)
 From Coq Require Import List Bool NArith ZArith String.
